@@ -18,9 +18,10 @@ LEVEL_NOTE = ("Trusted: Rust's Path::extension semantics restated in the model (
               "leading-dot stem has none); symlinks are never in scope (files or directories).")
 RULE = ("case = generated layout (depth <= 4, 10-25 entries incl. look-alikes and symlinks) x extension list x source_dir form "
         "(./src, src, a/b, absolute) ; runs: check + edit from the project dir, then edit again from 1-2 other working "
-        "directories (relative and absolute -c). Non-trivial = layout with at least one out-of-scope decoy carrying a missing "
+        "directories (relative and absolute -c); then one sub-directory unreadable, TMPDIR on another file system, and (35 %) one "
+        "sub-directory of the source tree as the mount point of another file system (other st_dev, EXDEV across it). Non-trivial = layout with at least one out-of-scope decoy carrying a missing "
         "reference and one in-scope file; distinct = case index.")
-PROBES = ["config_via_symlink", "exdev_run", "stem_siblings", "unreadable_subdir", "config_in_subdir", "symlink_to_file", "symlink_to_dir", "symlink_outside", "dir_named_rs", "lookalike_ext", "abs_source_dir", "cwd_outside",
+PROBES = ["mount_point_in_tree", "config_via_symlink", "exdev_run", "stem_siblings", "unreadable_subdir", "config_in_subdir", "symlink_to_file", "symlink_to_dir", "symlink_outside", "dir_named_rs", "lookalike_ext", "abs_source_dir", "cwd_outside",
           "cwd_root_abs", "empty_scope", "multi_ext", "hidden_rs", "nested_depth4"]
 ASSUMPTIONS = ["source_dir itself is a real directory (not a symlink)"]
 DEADLINE = {"quick": 200, "thorough": 3000}
@@ -306,6 +307,51 @@ def evaluate_unreadable_dir(wm, seed, base, nth, ctx):
     return viols
 
 
+def evaluate_mount(wm, seed, base, pick, ctx):
+    """One sub-directory of the source tree is the mount point of another file system (its entries report another st_dev,
+    renames across its boundary fail with EXDEV).  --check must still read exactly the in-scope files, those below the mount
+    point included; an edit leaves everything out of scope alone whatever it makes of the failing renames."""
+    scope = model_scope(wm, base)
+    dirs = sorted({os.path.dirname(p) for p in scope if os.path.dirname(p) != base})
+    if not dirs:
+        return []
+    d = dirs[pick % len(dirs)]
+    # mount at the first component below the source directory or at the file's own directory
+    if pick % 2:
+        d = base + "/" + d[len(base) + 1:].split("/")[0]
+    plan = {"seed": seed, "perm": True, "faults": [], "mount": d}
+    cfgname = wm.get("cfg_name", "Breadlog.yaml")
+    knobs = {"cwd": "proj", "config_arg": "rel", "threads": 2, "config_name": cfgname}
+    scenario = {"wm": world.wm_to_json(wm), "seed": seed, "base": base, "mount_pick": pick}
+    viols = []
+    run = scen.exec_run(wm, True, plan, knobs, ctx)
+    res = run["res"]
+    if res.mode != "exited":
+        return []
+    ctx.probes["mount_point_in_tree"] += 1
+    dg = hashlib.sha256((res.trace_digest() + core.digest_world(run["after"])).encode()).hexdigest()
+    rd = opened_for_read(res)
+    if rd != scope:
+        viols.append({"signature": "read-set-differs|mount-point", "what": "%s is a mount point; check skipped although in scope: %s; "
+                      "opened although out of scope: %s" % (d, sorted(scope - rd)[:4], sorted(rd - scope)[:4]),
+                      "scenario": scenario, "digest": dg})
+    run = scen.exec_run(wm, False, plan, knobs, ctx)
+    res = run["res"]
+    if res.mode == "exited":
+        lockpath = "proj/" + (cfgname.rsplit("/", 1)[0] + "/" if "/" in cfgname else "") + "Breadlog.lock"
+        rd = opened_for_read(res)
+        if rd != scope:
+            viols.append({"signature": "read-set-differs|mount-point|edit", "what": "%s is a mount point; edit skipped although in scope: "
+                          "%s; opened although out of scope: %s" % (d, sorted(scope - rd)[:4], sorted(rd - scope)[:4]),
+                          "scenario": scenario, "digest": dg})
+        bad = [(p, how) for p, how in core.diff_worlds(run["before"], run["after"], ignore=("tmp",))
+               if p not in scope and p != lockpath and not p.startswith(lockpath)]
+        if bad:
+            viols.append({"signature": "out-of-scope-path-changed|mount-point", "what": "%s is a mount point; afterwards %s" % (d, bad[:4]),
+                          "scenario": scenario, "digest": dg})
+    return viols
+
+
 def evaluate_exdev(wm, seed, base, ctx):
     """TMPDIR on another filesystem: every rename out of it fails with EXDEV.  Whatever the tool does about that (fail,
     or fall back to some other way of putting the content in place), out-of-scope paths stay untouched."""
@@ -336,6 +382,8 @@ def run_case(rng, idx, tier, ctx):
     if not viols and scope:
         viols += evaluate_unreadable_dir(wm, seed, base, rng.randrange(2, 7), ctx)
         viols += evaluate_exdev(wm, seed, base, ctx)
+        if rng.random() < 0.35:
+            viols += evaluate_mount(wm, seed, base, rng.randrange(1000), ctx)
     for t in tags:
         ctx.probes[t] += 1
     for c, _a in cwds:
@@ -356,6 +404,8 @@ def run_case(rng, idx, tier, ctx):
 
 def replay(scenario, ctx):
     wm = world.wm_from_json(scenario["wm"])
+    if "mount_pick" in scenario:
+        return evaluate_mount(wm, scenario["seed"], scenario["base"], scenario["mount_pick"], ctx)
     if scenario.get("exdev"):
         return evaluate_exdev(wm, scenario["seed"], scenario["base"], ctx)
     if "opendir_nth" in scenario:
